@@ -66,7 +66,38 @@ def native_replay(cls):
     return rep
 
 
+def build_wrapper_constant(chk):
+    """the selecting Univariate fitted on constant data c: the point-mass laws, through the wrapper's own methods"""
+    I = engine.new_interp()
+    I.summaries['copulas.univariate.selection.select_univariate'] = \
+        lambda interp, args, kwargs: uni.new_model(interp, 'GaussianUnivariate')
+    cm = ('probability_density', 'cumulative_distribution', 'percent_point', 'sample')
+    _, res, _ = uni.run_fit_and_query(UNIV, methods=cm, constant=True, I=I)
+    k = 0
+    for r in res:
+        if r.outcome == 'unsupported':
+            chk.undecided.append(('C03.Univariate.constant.exec', 'executor', str(r.value)))
+            continue
+        if r.outcome != 'return':
+            chk.add(Ob('C03.Univariate.constant.no_exception.%s' % getattr(r.value, 'clsname', '?'), r.pc, ir.FALSE,
+                       function=UNIV + '.sample', free_ufs_ok=True, replay=native_replay('Univariate'),
+                       clause='queries on the selecting Univariate fitted on constant data do not raise [%s]' %
+                       str(getattr(r.value, 'args', ''))[:80]))
+            continue
+        k += 1
+        out = r.state['out']
+        for meth, want, what in (('cumulative_distribution', ir.ite(ir.lt(Q, C), 0, 1), 'unit step at c'),
+                                 ('percent_point', C, 'c'), ('sample', C, 'c'),
+                                 ('probability_density', ir.ite(ir.eq(Q, C), 1, 0), 'indicator of c')):
+            chk.add(Ob('C03.Univariate.constant.%s.%d' % (meth, k), r.pc, ir.eq(term(out[meth]), want), function=UNIV + '.' + meth,
+                       free_ufs_ok=True, replay=native_replay('Univariate'),
+                       clause='selecting Univariate fitted on constant data c: %s is the %s' % (meth, what)))
+    if k == 0 and not chk.undecided and not any(o.name.startswith('C03.Univariate.constant') for o in chk.obs):
+        chk.engine_error('C03.Univariate.constant: no path')
+
+
 def build(chk):
+    build_wrapper_constant(chk)
     I0 = engine.new_interp()
     src = I0.source
     chk.under_contract(src, [uni.BASE + 'ScipyModel.' + m for m in
